@@ -824,6 +824,8 @@ T_pair     == {RS(<<"pair">>,              {"I_pair", "I_pairr", "I_pairc", "Rel
 ThoroughSets == T_negneg \cup T_keep \cup T_relurelu \cup T_mul1 \cup T_subneg \cup T_chain \cup T_dbl \cup T_fn \cup T_pair
 VacuitySets == {RS(<<"subneg">>, {"Sub"}, X, 2, 1, T, X, X, X, X, X), RS(<<"dbl">>, {"Add"}, X, 2, 1, X, X, X, X, X, X),
                 RS(<<"relurelu">>, {"Relu"}, X, 3, 1, X, X, X, X, X, X), RS(<<"pair">>, {"I_pairc"}, X, 1, 1, X, X, X, X, X, X)}
+BuildOnly == phase = "build"
+CountHost == phase = "begin" => PrintT(<<"HOST", cfg.n>>)
 NoDevs == {}
 RealDevs == AllDevs
 =============================================================================
